@@ -1,9 +1,12 @@
 package main
 
 import (
+	"bufio"
 	"bytes"
 	"crypto/sha256"
 	"fmt"
+	"net"
+	"net/http"
 	"runtime"
 	"time"
 
@@ -300,6 +303,52 @@ func runC14(c *Ctx) error {
 	if err := sharedBroadcastFrameScenario(c); err != nil {
 		return err
 	}
+	// ---- (c3) the pooled bufio.Reader: a reader the APPLICATION owns (passed to UpgradeFromConn) stays the application's
+	// after a rejected handshake; a later connection that takes its reader from the pool must not end up sharing it
+	if err := appOwnedReaderScenario(c); err != nil {
+		return err
+	}
+	// ---- (c4) error paths of the streamed send give every pooled buffer back at most once: after a WriteFile that failed at
+	// its k-th transport write, two buffers taken from the pool are two different buffers
+	for _, server := range []bool{true, false} {
+		for _, pmd := range []bool{true, false} {
+			for k := 0; k < 7; k++ {
+				spec := connSpec{Server: server, PMD: pmd}
+				conn, tap, err := spec.open(&recHandler{})
+				if err != nil {
+					return err
+				}
+				tap.mu.Lock()
+				tap.failWrite = tap.nWrite + k
+				tap.mu.Unlock()
+				data := randBytes(c.Rng, 3*131072+77)
+				_ = conn.WriteFile(gws.OpcodeBinary, newChunkReader(splitEven(data, 3), "sep"))
+				_ = tap.Close()
+				tag := fmt.Sprintf("pool after a failed streamed send server=%v pmd=%v fault at write %d", server, pmd, k)
+				for _, size := range []int{131072, 262144, 65536} {
+					var taken []*bytes.Buffer
+					seen := map[*byte]bool{}
+					dup := false
+					for i := 0; i < 6; i++ {
+						b := gws.VerifPoolGet(size)
+						raw := b.Bytes()[:1]
+						if seen[&raw[0]] {
+							dup = true
+						}
+						seen[&raw[0]] = true
+						taken = append(taken, b)
+					}
+					if dup {
+						c.oracleFail(fmt.Sprintf("the pool handed out one %d-byte buffer to two owners [%s]", size, tag), "pool-double-put", map[string]any{"tag": tag, "size": size})
+					}
+					for _, b := range taken {
+						gws.VerifPoolPut(b)
+					}
+				}
+				c.count(tag, true, "kind=pool-after-failed-stream")
+			}
+		}
+	}
 	// ---- (d) pooled windows: state and behaviour of every new connection of a long-lived server
 	freshWindowScenario(c, 24)
 	return nil
@@ -446,6 +495,95 @@ func sharedBroadcastFrameScenario(c *Ctx) error {
 				c.count(tag, true, "kind=broadcast-shared-frame")
 			}
 		}
+	}
+	return nil
+}
+
+type fakeHijacker struct {
+	conn net.Conn
+	hdr  http.Header
+}
+
+func (f *fakeHijacker) Header() http.Header         { return f.hdr }
+func (f *fakeHijacker) Write(b []byte) (int, error) { return f.conn.Write(b) }
+func (f *fakeHijacker) WriteHeader(int)             {}
+func (f *fakeHijacker) Hijack() (net.Conn, *bufio.ReadWriter, error) {
+	return f.conn, nil, nil
+}
+
+func appOwnedReaderScenario(c *Ctx) error {
+	prev := runtime.GOMAXPROCS(1)
+	defer runtime.GOMAXPROCS(prev)
+	mkReq := func(valid bool) *http.Request {
+		hd := http.Header{}
+		hd.Set("Connection", "Upgrade")
+		hd.Set("Upgrade", "websocket")
+		hd.Set("Sec-WebSocket-Version", "13")
+		if valid {
+			hd.Set("Sec-WebSocket-Key", testKey)
+		}
+		return &http.Request{Method: "GET", Header: hd, Proto: "HTTP/1.1", ProtoMajor: 1, ProtoMinor: 1}
+	}
+	for round := 0; round < 6; round++ {
+		rt := &routeHandler{}
+		rt.up = gws.NewUpgrader(rt, &gws.ServerOption{})
+		appReader := bufio.NewReaderSize(nil, 4096)
+		// A: rejected (no key), with the application's reader
+		tapA := newMemConn()
+		appReader.Reset(tapA)
+		if conn, err := rt.up.UpgradeFromConn(tapA, appReader, mkReq(false)); err == nil || conn != nil {
+			c.oracleFail("a request without Sec-WebSocket-Key was upgraded", "reader-scenario-setup", nil)
+			return nil
+		}
+		// B: accepted, the application reuses its reader
+		tapB, hB := newMemConn(), &recHandler{}
+		appReader.Reset(tapB)
+		connB, err := rt.up.UpgradeFromConn(tapB, appReader, mkReq(true))
+		if err != nil {
+			return err
+		}
+		rt.bind(connB, hB)
+		// C: accepted through Upgrade, which takes its reader from the pool
+		tapC, hC := newMemConn(), &recHandler{}
+		connC, err := rt.up.Upgrade(&fakeHijacker{conn: tapC, hdr: http.Header{}}, mkReq(true))
+		if err != nil {
+			return err
+		}
+		rt.bind(connC, hC)
+		tapB.feed(dataFrame(1, true, true, []byte("sent-on-B")))
+		tapC.feed(dataFrame(1, true, true, []byte("sent-on-C")))
+		tapB.feed(dataFrame(8, true, true, []byte{0x03, 0xe8}))
+		tapC.feed(dataFrame(8, true, true, []byte{0x03, 0xe8}))
+		tapB.setEOF()
+		tapC.setEOF()
+		doneB := make(chan struct{})
+		doneC := make(chan struct{})
+		go func() { defer close(doneB); connB.ReadLoop() }()
+		go func() { defer close(doneC); connC.ReadLoop() }()
+		for _, d := range []chan struct{}{doneB, doneC} {
+			select {
+			case <-d:
+			case <-time.After(5 * time.Second):
+			}
+		}
+		got := func(h *recHandler) []string {
+			var out []string
+			for _, e := range h.events() {
+				if e.Kind == "msg" {
+					out = append(out, string(e.Payload))
+				}
+			}
+			return out
+		}
+		gb, gc := got(hB), got(hC)
+		tag := fmt.Sprintf("application-owned reader round=%d", round)
+		if len(gb) != 1 || gb[0] != "sent-on-B" || len(gc) != 1 || gc[0] != "sent-on-C" {
+			c.oracleFail(fmt.Sprintf("connection B (the application's own bufio.Reader, reused after a rejected handshake) received %q and connection C (reader from the pool) received %q; each must receive exactly its own message [%s]", gb, gc, tag),
+				"reader-shared", map[string]any{"tag": tag})
+		}
+		_ = tapB.Close()
+		_ = tapC.Close()
+		c.count(tag, true, "kind=app-owned-reader")
 	}
 	return nil
 }
